@@ -59,6 +59,7 @@ type harness struct {
 	friendPub []byte
 	bystander *network.OneConnection
 	nextIP    uint32
+	peersFull bool // the peers database currently holds the capacity filler
 	nextExtra uint32
 	mempool   []*hTx // transactions accepted into the node's mempool (by the self-test)
 	lastMemTx *hTx   // tail of the chain of mempool txs; output 0 is spendable
@@ -704,7 +705,33 @@ func allStacks() string {
 }
 
 // runScript drives one connection. It returns the observations; deciding is done by the parent.
+// setPeersFull fills the peers database up to its hard capacity (MaxPeersInDB+MaxPeersDeviation records) or removes
+// the filler again: the state is a function of the script index, so that a script replayed alone meets the same state.
+func (h *harness) setPeersFull(want bool) {
+	if want == h.peersFull {
+		return
+	}
+	h.peersFull = want
+	now := uint32(time.Now().Unix())
+	n := peersdb.MaxPeersInDB + peersdb.MaxPeersDeviation
+	for i := 0; i < n; i++ {
+		p, err := peersdb.NewAddrFromString(fmt.Sprintf("100.%d.%d.%d:8333", byte(i>>16), byte(i>>8), byte(i)), false)
+		if err != nil || p == nil {
+			fatalBroken("filler peer: %v", err)
+		}
+		k := qdb.KeyType(p.UniqID())
+		if want {
+			p.Time = now
+			p.Services = 0x409
+			peersdb.PeerDB.Put(k, p.Bytes())
+		} else {
+			peersdb.PeerDB.Del(k)
+		}
+	}
+}
+
 func (h *harness) runScript(s *script) *scriptResult {
+	h.setPeersFull(s.Idx >= 0 && (s.Idx/40)%5 == 3)
 	res := &scriptResult{Idx: s.Idx, Kind: s.Kind, Msgs: len(s.Msgs)}
 	for _, m := range s.Msgs {
 		res.Cmds = append(res.Cmds, m.Cmd+"("+m.Tag+")")
